@@ -191,7 +191,11 @@ type KnownFindings struct {
 
 func loadKnown() KnownFindings {
 	var k KnownFindings
-	b, err := os.ReadFile(filepath.Join(VerifDir, "known_findings.json"))
+	home := os.Getenv("VERIF_HOME")
+	if home == "" {
+		home = "/verif"
+	}
+	b, err := os.ReadFile(filepath.Join(home, "known_findings.json"))
 	if err == nil {
 		_ = json.Unmarshal(b, &k)
 	}
